@@ -743,9 +743,19 @@ class CSSStyleSheet(css_parser.stylesheets.StyleSheet):
             if not (rule.prefix in self.namespaces and
                     self.namespaces[rule.prefix] == rule.namespaceURI):
                 # no doublettes
+                oldrules = list(self._cssRules)
                 self._cssRules.insert(index, rule)
                 if _clean:
-                    self._cleanNamespaces()
+                    try:
+                        self._cleanNamespaces()
+                    except xml.dom.NoModificationAllowedErr:
+                        # the new rule would leave a namespaceURI which is
+                        # still used without a prefix: refuse it as a whole
+                        del self._cssRules[:]
+                        for r in oldrules:
+                            r._parentStyleSheet = self
+                            self._cssRules.insert(len(self._cssRules), r)
+                        raise
 
         # @variables
         elif rule.type == rule.VARIABLES_RULE:
